@@ -3,7 +3,6 @@ from __future__ import annotations
 
 import asyncio
 
-import aioesphomeapi.client as CL
 import aioesphomeapi.client_callbacks as CB
 import aioesphomeapi.model as M
 import aioesphomeapi.model_conversions as MC
@@ -14,7 +13,6 @@ from google.protobuf.descriptor import FieldDescriptor as FD
 from vf import pbstub, track
 from vf.cliworld import ClientWorld, tname
 from vf.harness.common import concretize, same, shard_int, shard_ints
-from vf.track import NoTracing
 
 PROPERTY = "C17"
 
